@@ -108,6 +108,8 @@ INPUTS = [
     (["10 LINE INPUT Y$"], "line-input"), (["10 LINE INPUT \"P\";Y$"], "line-input-prompt"),
     (["7 DIM C(3),D$(3)", "10 INPUT C(1),D$(2)"], "input-array"), (["10 INPUT E(2)"], "input-implicit-array"),
     (["10 INPUT X,Y,Z"], "input-3"),
+    (["10 INPUT \"READY?\";X"], "input-prompt-ending-in-question-mark"), (["10 INPUT \"?\";Y$"], "input-prompt-ending-in-question-mark"),
+    (["10 LINE INPUT \"WHY?\";Y$"], "line-input-prompt"), (["10 INPUT \"A: \";X,Y$"], "input-prompt"), (["10 INPUT \"\";X"], "input-empty-prompt"),
 ]
 STRFUN = [
     ("Z$=LEFT$(S$,N)", "sn"), ("Z$=RIGHT$(S$,N)", "sn"), ("Z$=MID$(S$,P,N)", "spn"), ("Z=LEN(S$)", "s"), ("Z=ASC(S$)", "s"),
